@@ -256,19 +256,21 @@ theorem member_edit_changes_only_touched_spaces (kw : List String) (st st' : SM.
   exact ⟨hf, fun a q n hne => hf.changed_mem a q n hne, fun ids q hne => nsOf_changed_in_touched ids hf q hne⟩
 
 /-- **…so the deletion of a cells that sub spaces inherit leaves no stale value in the sub spaces
-either**, provided the clearing notifies the cells of `p` and of every sub space of `p` (the
-deleted cells and its derived copies are cleared by `clear_obj` before: no node, no input). -/
+either**: the cells that go – the deleted one and its derived copies, `CL` – are cleared by
+`clear_obj`; the cells `L` are notified; every cells living in `p` or in a sub space of `p` is
+notified or cleared; those not cleared that hold an input still exist.  Then every value held
+afterwards is a denotation under the definitions resolved in the NEW namespaces. -/
 theorem deleted_member_leaves_no_stale_value_in_subs (se : Exec.SEnv) (ids : SM.Ids) (pathOf : Nat → Path)
     (st st' : SM.St) (p : Path) (name : String) (hop : st.delMember .cells p name = some st')
-    (L : List Exec.CellId) (lt : Exec.Node → Exec.Node → Prop) (s : Exec.St)
+    (CL L : List Exec.CellId) (lt : Exec.Node → Exec.Node → Prop) (s : Exec.St)
     (h : Exec.CI (SM.withStruct se ids pathOf st).toEnv lt s)
-    (hL : ∀ c, pathOf (se.home c) ∈ st.touched p → c ∈ L ∨ ∀ x ∈ s.gn, x.cell ≠ c)
-    (hinp : ∀ n ∈ s.inputs, pathOf (se.home n.1) ∈ st.touched p →
+    (hL : ∀ c, pathOf (se.home c) ∈ st.touched p → c ∈ L ∨ c ∈ CL)
+    (hinp : ∀ n ∈ s.inputs, pathOf (se.home n.1) ∈ st.touched p → n.1 ∉ CL →
       (SM.withStruct se ids pathOf st').toEnv.alive n.1 = true) :
     Exec.Good (SM.withStruct se ids pathOf st').toEnv
-      (Exec.inpOf (s.notifyAll (SM.withStruct se ids pathOf st).toEnv L))
-      (s.notifyAll (SM.withStruct se ids pathOf st).toEnv L) :=
-  (SM.mech_delCells_ci se ids pathOf st st' p name hop L h hL hinp).good
+      (Exec.inpOf ((CL.foldl Exec.St.clearObj s).notifyAll (SM.withStruct se ids pathOf st).toEnv L))
+      ((CL.foldl Exec.St.clearObj s).notifyAll (SM.withStruct se ids pathOf st).toEnv L) :=
+  (SM.mech_edit_cleared_ci se ids pathOf st st' p (delMember_frame st st' .cells p name hop) CL L h hL hinp).good
 
 /-! Non-vacuity: `A` defines `f`; `B(A)` and `D(B)` inherit it, `C` is unrelated.  `A.new_cells("g")`
 touches `A`, `B`, `D` – `g` becomes visible there – and nothing of `C`; `del A.f` likewise. -/
